@@ -16,7 +16,11 @@
                            walk ("" and "." skipped, ".." pops) — finding 0;
      req_enters_uploads q  an object route whose walk climbs or puts ".uploads" directly
                            below the bucket directory at some point — finding 1;
-     bad_bucket b          the bucket name is "", ".", "..", or has "/" or "%" — finding 2.
+     odd_bucket b          the bucket name has a "%" — finding 2 (the routes that proxy to
+                           the filer's HTTP side decode the bucket name once more).
+   The bucket names "", "." and ".." (`router_refuses`) reach no handler since the repair of
+   the router pattern: `calls` = [] for them (c29_router_refuses, c29_dot_buckets_repaired);
+   bad_bucket b = router_refuses b || odd_bucket b is kept for the older statements.
    (former finding 3, the POST upload joining bucket and key without "/", is repaired.) *)
 From Coq Require Import List NArith Bool String.
 From SW Require Import model.S3List model.S3Paths proof.S3PathsProofs proof.S3PathsCompat.
@@ -47,26 +51,26 @@ Print Assumptions c29_contained_refuted_routes.
    bucket directory (a ".." segment that stays inside, as in x/../y, is fine), every
    path of every route stays inside the bucket directory — for every fixture. *)
 Theorem c29_contained_partial : forall fx q,
-  bad_bucket (q_bucket q) = false -> req_climbs q = false ->
+  odd_bucket (q_bucket q) = false -> req_climbs q = false ->
   forallb call_contained (calls fx q) = true.
-Proof. exact calls_contained_partial. Qed.
+Proof. exact calls_contained_routed. Qed.
 Print Assumptions c29_contained_partial.
 
 (* the data dependent calls: the empty-folder purge after a batch delete and the
    directories a listing descends into (the fixture's names must be ordinary names) *)
 Theorem c29_candidates_contained_partial : forall fx q,
-  bad_bucket (q_bucket q) = false -> req_climbs q = false ->
+  odd_bucket (q_bucket q) = false -> req_climbs q = false ->
   (route_needs_plain_fx (q_route q) = true -> fx_plain fx = true) ->
   candidates_contained fx q = true.
-Proof. exact candidates_contained_partial. Qed.
+Proof. exact candidates_contained_routed. Qed.
 Print Assumptions c29_candidates_contained_partial.
 
 (* calls and purge together, as in the first version of this file *)
 Theorem c29_all_contained_partial : forall fx q,
-  bad_bucket (q_bucket q) = false -> req_climbs q = false ->
+  odd_bucket (q_bucket q) = false -> req_climbs q = false ->
   (forall k, In k (q_keys q) -> climbs k = false) ->
   all_contained fx q = true.
-Proof. exact contained_partial2. Qed.
+Proof. exact all_contained_routed. Qed.
 Print Assumptions c29_all_contained_partial.
 
 (* The former, purely syntactic statement (no ".." segment anywhere) is a corollary:
@@ -118,9 +122,9 @@ Print Assumptions c29_uploads_hidden_refuted_dotdot.
 (* ... and the strongest true statement, under ONE hypothesis on the request: an object
    route whose walk neither climbs nor passes through ".uploads" never touches the area *)
 Theorem c29_uploads_hidden_partial : forall fx q,
-  bad_bucket (q_bucket q) = false -> q_bucket q <> ".uploads" ->
+  odd_bucket (q_bucket q) = false -> q_bucket q <> ".uploads" ->
   req_enters_uploads q = false -> uploads_hidden fx q = true.
-Proof. exact uploads_hidden_partial2. Qed.
+Proof. exact uploads_hidden_routed. Qed.
 Print Assumptions c29_uploads_hidden_partial.
 
 (* neither does the empty-folder purge of its batch keys *)
@@ -138,17 +142,57 @@ Theorem c29_uploads_hidden_partial_dotdot : forall fx q,
 Proof. exact uploads_hidden_partial. Qed.
 Print Assumptions c29_uploads_hidden_partial_dotdot.
 
-(* Finding 2: the bucket name itself.  DELETE /. recursively deletes /buckets, GET
-   /../etc/secret is served from /etc/secret: REFUTED for bucket names that are not
-   ordinary names; every partial theorem above assumes bad_bucket = false. *)
-Theorem c29_bad_bucket_refuted :
-  bad_bucket (q_bucket bad_delete) = true /\
-  map snd (calls fx_demo bad_delete) = [GLookup "/buckets" "."; GDelete "/buckets" "." true] /\
+(* The bucket name itself.  The router's {bucket} pattern
+   [^/.][^/]*|\.[^/.][^/]*|\.\.[^/]+  (bucket_pattern mirrors it alternative by alternative)
+   refuses exactly "", "." and ".." among the names without "/" ... *)
+Theorem c29_router_pattern : forall b,
+  bucket_pattern b = false <-> (b = "" \/ b = "." \/ b = ".." \/ no_slash b = false).
+Proof. exact pattern_refuses_exactly. Qed.
+Print Assumptions c29_router_pattern.
+
+(* ... and a refused name reaches no handler: no filer-facing call at all *)
+Theorem c29_router_refuses : forall fx q, router_refuses (q_bucket q) = true ->
+  calls fx q = [] /\ candidates fx q = [].
+Proof. exact refused_no_calls. Qed.
+Print Assumptions c29_router_refuses.
+
+(* Former finding "bucket names '.' and '..'", REPAIRED in /repo (fix: the S3 router must not
+   accept '.' or '..' as a bucket name): DELETE /. looked up and recursively deleted /buckets
+   itself and GET /../etc/secret was served from /etc/secret — this is still what the
+   handlers would do (handler_calls), but the router no longer reaches them: the former
+   witnesses make no call.  ("...", ".b", "..b" are ordinary names and still accepted.) *)
+Theorem c29_dot_buckets_repaired :
+  bucket_pattern "." = false /\ bucket_pattern ".." = false /\ bucket_pattern "" = false /\
+  bucket_pattern "..." = true /\ bucket_pattern ".b" = true /\ bucket_pattern "..b" = true /\
+  map snd (handler_calls fx_demo bad_delete) = [GLookup "/buckets" "."; GDelete "/buckets" "." true] /\
   effective (GDelete "/buckets" "." true) = Some "/buckets" /\
-  bad_bucket (q_bucket bad_get) = true /\
-  map (fun c => effective (snd c)) (calls fx_demo bad_get) = [None; Some "/etc/secret"].
-Proof. exact bad_bucket_refuted. Qed.
-Print Assumptions c29_bad_bucket_refuted.
+  map (fun c => effective (snd c)) (handler_calls fx_demo bad_get) = [None; Some "/etc/secret"] /\
+  calls fx_demo bad_delete = [] /\ candidates fx_demo bad_delete = [] /\
+  calls fx_demo bad_get = [] /\ candidates fx_demo bad_get = [].
+Proof. exact dot_buckets_repaired. Qed.
+Print Assumptions c29_dot_buckets_repaired.
+
+(* Finding 2: a bucket name with a "%" (accepted by the router; PUT /%2562 creates
+   /buckets/%62).  The routes that proxy to the filer's HTTP side escape the key but not the
+   bucket name, so the filer decodes it once more: GET / DELETE /%2562/obj act on
+   /buckets/b/obj, the POST upload writes into bucket b, a name decoding to ".." leaves
+   /buckets; the gRPC routes use the literal name; a bad escape sends nothing.  REFUTED for
+   such names although the key does not climb; every partial theorem assumes odd_bucket = false. *)
+Theorem c29_odd_bucket_refuted :
+  router_refuses (q_bucket odd_get) = false /\ odd_bucket (q_bucket odd_get) = true /\
+  req_climbs odd_get = false /\ req_enters_uploads odd_get = false /\
+  map snd (calls fx_demo odd_get) = [Http MGet "/buckets/b/obj"] /\
+  forallb call_contained (calls fx_demo odd_get) = false /\
+  map snd (calls fx_demo odd_delete) = [Http MDelete "/buckets/b/obj"] /\
+  forallb call_contained (calls fx_demo odd_delete) = false /\
+  map snd (calls fx_demo odd_post) = [Http MPut "/buckets/b/posted"] /\
+  forallb call_contained (calls fx_demo odd_post) = false /\
+  map snd (calls fx_demo odd_head_bucket) = [GLookup "/buckets" "%62"] /\
+  forallb call_contained (calls fx_demo odd_head_bucket) = true /\
+  map (fun c => effective (snd c)) (calls fx_demo odd_get_dd) = [None; Some "/etc/secret"] /\
+  calls fx_demo odd_get_badesc = [].
+Proof. exact odd_bucket_refuted. Qed.
+Print Assumptions c29_odd_bucket_refuted.
 
 (* Former finding 3, REPAIRED in /repo (fix: POST policy upload must keep the bucket and
    the form key apart): POST /oth with key = er/obj used to write /buckets/other/obj; the
